@@ -855,7 +855,7 @@ package zygo
 // instruction 1 (the parameter-binding prologue, after the function-scope
 // instruction at 0), and the flag is put back
 //@ func (*Generator).GenerateCallBySymbol
-//@ C02,C09 assert tail-args-not-tail @before call GenerateCallArgsForFunction[0]: !gen.Tail
+//@ C02,C04,C09 assert tail-args-not-tail @before call GenerateCallArgsForFunction[0]: !gen.Tail
 //@ C03,C09 assert jump-to-prologue @before call AddInstruction[*]: typeis(arg1, GotoInstr) ==> arg1.(GotoInstr).location == 0 && len(arg0.instructions) == lenAfterArgs + ite(gen.scopes > 0, gen.scopes, 0) + 2 && typeis(arg0.instructions[len(arg0.instructions)-1], RemoveScopeInstr)
 //@ func buildSexpFun
 //@ C09 assert function-scope-first @after call AddInstruction[0]: len(arg0.instructions) == 1
